@@ -14,5 +14,6 @@ CONSTANTS
   InitRate = 6000
   F6Quirk = FALSE
   F7Quirk = FALSE
+  PoorShare = 0
 INVARIANTS ErrAgree ConformCounters ConformNet ConformChains ReloadOpens ConformShadowChains ReleaseRule ReleaseRuleReest NeverBroadcastRevoked NextPointRule ReestPointRule StaleSecretsRule
 CHECK_DEADLOCK TRUE
